@@ -165,6 +165,9 @@ ax("stripn-step", L.FA([_s0, _sq, _ii], z3.Implies(_ii >= 0, stripn(_s0, _sq, _i
                        [(stripn(_s0, _sq, _ii), L.nth(_sq, _ii))]))
 
 
+R.SPEC["re_sub_"] = SpecFn(lambda ip, a, kw: ZS(re_sub(as_str(a[0]), as_str(a[1]), as_str(a[2]))), "re_sub_")
+
+
 @spec("stripn_")
 def _stripn_spec(ip, a, kw):
     return ZS(stripn(as_str(a[0]), as_v(a[1]), as_int(a[2])))
